@@ -3444,6 +3444,14 @@ impl SctpInner {
         let flags_base = if !ordered { 0x04 } else { 0x00 };
 
         loop {
+            // Register for the wake-up BEFORE looking at the state: `close()`
+            // sets `Closed` and then calls `notify_waiters()`, which only
+            // reaches `Notified` futures that already exist (no permit is
+            // stored). Creating the future after the check left a window in
+            // which a close was missed and the sender slept forever.
+            let notified = self.flow_control_notify.notified();
+            tokio::pin!(notified);
+            notified.as_mut().enable();
             // Bail out if the association has been closed while we were waiting
             // for window credit, otherwise this task (and the Arc<SctpInner> /
             // DataChannel it captures) would live forever.
@@ -3457,7 +3465,7 @@ impl SctpInner {
             }
             #[cfg(rustrtc_verif)]
             crate::verif::probe("sctp", self.verif_inst(), "send.before_wait");
-            self.flow_control_notify.notified().await;
+            notified.await;
         }
 
         self.queued_bytes.fetch_add(total_len, Ordering::Relaxed);
